@@ -157,7 +157,7 @@ def history(rng, nops=(2, 8), invalid_share=0.3, dtype_focus=False):
                 ops.append({"op": "invalid", "what": "merge_frac", "h": h})
             continue
         kind = rng.choice(["fill", "fill", "fill_n", "fill_n", "iadd", "add", "imul", "mul", "idiv", "div", "normalize",
-                           "merge", "set_dtype", "copy", "slice", "sub", "set_arr", "retype"])
+                           "merge", "set_dtype", "copy", "slice", "sub", "set_arr", "retype", "isub"])
         tags.append(kind)
         if kind == "retype" or (dtype_focus and kind == "copy" and rng.random() < 0.5):
             # the same kind of call before and after an explicit change of the content type: whatever the first call settled
@@ -184,6 +184,11 @@ def history(rng, nops=(2, 8), invalid_share=0.3, dtype_focus=False):
                 ops.append({"op": "imul", "h": h, "c": rs(1.5 if isf else 3), "k": wk})
             else:
                 ops.append({"op": "fill", "h": h, "v": None if v2 is None else rs(v2), "w": rs(0.5 if isf else 3), "wk": wk})
+            continue
+        if kind == "isub":
+            # in-place subtraction of the sibling register (accepted, or refused because a content would become negative or --
+            # adaptive histograms grown to different ranges -- because the bins differ): a refusal must leave everything as it was
+            ops.append({"op": "isub", "h": h, "o": 1 - h if h < 2 else 0, "maybe_refused": True})
             continue
         if kind == "set_arr":
             # the public property setters `h.frequencies = array` / `h.errors2 = array` with an array of any element type
